@@ -149,6 +149,14 @@ def run_case(case, probe=None):
         for f in flush:
             one("feed", 0, len(f["bytes"]))
         one("probe", 0, len(probe["bytes"]))
+    elif probe is not None and getattr(case, "probe_existing", False) and len(conns) >= 2:
+        # "nor stops serving OTHER connections": the probe goes to a connection that was opened before the hostile traffic and has
+        # been idle since
+        ci = len(conns) - 1
+        case.sent[ci].append({"start": len(case.streams[ci]) + 1, "len": len(probe["bytes"]), "uid": probe["uid"], "tid": probe["tid"],
+                              "pid": 0, "pdu": list(probe["pdu"]), "exp": 1})
+        case.streams[ci] = case.streams[ci] + probe["bytes"]
+        one("probe", ci, len(probe["bytes"]))
     elif probe is not None:
         c = fe.open()
         conns.append(c)
@@ -163,7 +171,8 @@ def run_case(case, probe=None):
         pass
     return {"id": case.id, "mode": case.mode, "fe": case.fe, "kind": case.kind,
             "cfg": {"single": case.cfg["single"], "hosted": case.cfg["hosted"], "broadcast": case.cfg["broadcast"], "ignore": case.cfg["ignore"]},
-            "units": case.units, "sent": case.sent, "streams": [list(x) for x in case.streams], "ev": ev}
+            "units": case.units, "sent": case.sent, "streams": [list(x) for x in case.streams], "ev": ev,
+            "probe_existing": 1 if getattr(case, "probe_existing", False) else 0}
 
 
 def fe_kinds(tier):
@@ -417,6 +426,9 @@ def gen_c12(tier, rng):
         items = hostile_items(kind, rng, cfg["hosted"])
         dgram = D.FRONTENDS[fe].datagram
         case.add_conn(items)
+        if fe != "syncSerial" and k % 3 == 1:
+            case.add_conn([])               # a second connection, opened before the hostile traffic, idle until the probe
+            case.probe_existing = True
         data = case.streams[0]
         if dgram:
             # one datagram per item
